@@ -547,6 +547,24 @@ for name, mod in sorted(FORMAT_MODULES.items()):
             finally:
                 builtins.open = real_open
             if state["n"] > 0 and state["closed"] is not True: fails.append((name, k, exc_cls.__name__, "file not closed after a write fault"))
+# required attributes whose value is a dictionary: an object that was never given the data holds an empty dictionary,
+# not None - it lacks the required attribute all the same
+for name, mod in sorted(FORMAT_MODULES.items()):
+    if not hasattr(mod, "dump_one"): continue
+    for attr in mod.dump_one.required:
+        if not isinstance(getattr(IOData(), attr), dict): continue
+        cases += 1
+        d = full_object()
+        setattr(d, attr, {})
+        fn = target(name + "_emptydict", True)
+        try:
+            dump_one(d, fn, fmt=name)  # an empty dictionary may be all the format needs (pdb: extra)
+        except PrepareDumpError:
+            if open(fn).read() != "PRECIOUS CONTENT\n": fails.append((name, attr, "pre-existing file modified by a pre-flight failure"))
+        except DumpError:
+            if open(fn).read() != "PRECIOUS CONTENT\n": fails.append((name, attr, "an empty required dictionary attribute passes the pre-flight check: existing file destroyed, then DumpError"))
+        except Exception as exc:
+            fails.append((name, attr, "missing attribute raised " + type(exc).__name__))
 # incompatible objects: pre-flight must reject them (PrepareDumpError, file untouched) or the dump must succeed
 def variants():
     out = []
@@ -571,6 +589,8 @@ for name, mod in sorted(FORMAT_MODULES.items()):
     except Exception:
         continue  # the base object itself is not writable in this format (not an error-contract matter; see C02)
     for lbl, d in variants():
+        if not hasattr(mod, "prepare_dump") and lbl != "no-schema_name":
+            continue  # the rejection reasons of the statement are those of the formats that have a prepare_dump
         for allow in (False, True):
             cases += 1
             fn = target(name + "_inc", True)
